@@ -328,23 +328,23 @@ AX = ["child", "descendant", "descendant-or-self", "parent", "ancestor", "ancest
 
 def gen_path(r):
     steps = []
-    nsteps = r.choice([1, 1, 2, 2, 3])
+    nsteps = r.choice([1, 1, 1, 2, 2, 3])
     for k in range(nsteps):
         # the attribute axis only as the last step, and never an attribute as context node: the Xerces wrapper
         # exposes the Text children of attributes to the child/descendant axes (reported separately, not C12)
         ax = r.choice(AX if k == nsteps - 1 else [a for a in AX if a != "attribute"])
-        test = r.choice(["*", "node()", "node()", "a", "b", "c", "text()", "comment()"]) if ax != "attribute" else r.choice(["*", "x", "y", "node()"])
-        pred = r.choice(["", "", "", "[1]", "[last()]", "[position()>1]", "[position()<3]", "[@x]", "[2]"])
+        test = r.choice(["*", "*", "node()", "node()", "node()", "a", "b", "text()", "comment()"]) if ax != "attribute" else r.choice(["*", "*", "x", "node()"])
+        pred = r.choice(["", "", "", "", "", "", "[1]", "[last()]", "[position()>1]", "[position()<3]", "[@x]", "[2]"])
         steps.append("%s::%s%s" % (ax, test, pred))
     p = "/".join(steps)
     k = r.random()
-    if k < 0.35:
+    if k < 0.2:
         return "/" + p
-    if k < 0.5:
+    if k < 0.4:
         return "//" + p
-    if k < 0.55:
-        return r.choice(["/", ".", "..", "//@*", "//node()", "/*", "//*"])
-    if k < 0.62 and "attribute::" not in p:
+    if k < 0.5:
+        return r.choice(["/", ".", "..", "//@*", "//node()", "/*", "//*", "//text()", "../*", ".//*", "//*/@*", "//*[last()]", "//*/.."])
+    if k < 0.58 and "attribute::" not in p:
         return "(%s)%s" % (p, r.choice(["[1]", "[last()]", "[position()>1]"]))
     return p
 
@@ -387,10 +387,11 @@ def l_case(cid, docs, ops):
     return "%s|L|%s|O:%s" % (cid, "|".join(d.field for d in docs), " ".join(ops))
 
 
-def make_cases(ctx, scale):
+def make_cases(ctx, scale, impl=None):
     """returns list of dicts: id, mode, line, cls, plus mode-specific data"""
     r = ctx.rng
     cases = []
+    xjobs = []
 
     def add(mode, cls, line, **kw):
         c = {"id": "%s%d" % (mode.lower(), len(cases)), "mode": mode, "cls": cls}
@@ -410,13 +411,9 @@ def make_cases(ctx, scale):
             for _ in range(6):
                 ops = gen_history(r, [doc], r.choice([5, 10, 20, 40]), False)
                 add("L", kind + ":random-history", lambda cid, doc=doc, ops=ops: l_case(cid, [doc], ops), docs=[doc], ops=ops)
-            # XPath: union laws
-            for _ in range(5):
-                A, B, C = gen_path(r), gen_path(r), gen_path(r)
-                exprs = [A, B, C, "%s | %s" % (A, B), "%s | %s" % (B, A), "(%s | %s) | %s" % (A, B, C), "%s | (%s | %s)" % (A, B, C),
-                         "%s | %s" % (A, A), "%s | %s | %s" % (A, B, C)]
-                ctxnode = r.choice([i for i in range(doc.n) if doc.kinds[i] != "attr"])
-                add("X", "xpath:" + kind, lambda cid, doc=doc, ctxnode=ctxnode, exprs=exprs: x_case(cid, doc, ctxnode, exprs), docs=[doc], exprs=exprs)
+            nonattr = [i for i in range(doc.n) if doc.kinds[i] != "attr"]
+            ctxnode = r.choice(nonattr[len(nonattr) // 2:] if r.random() < 0.6 else nonattr)   # late nodes: long reverse axes
+            xjobs.append((doc, ctxnode, [gen_path(r) for _ in range(36)]))
         # several documents (known-finding class F7 when a list mixes documents)
         for kinds in (["n", "n"], ["xi", "xn"], ["xn", "xn", "xi"], ["n", "n", "n"]):
             tops = [top] + [gen_doc(r, "small") for _ in kinds[1:]]
@@ -425,6 +422,24 @@ def make_cases(ctx, scale):
                 continue
             for cls, ops in multi_doc_cases(r, docs):
                 add("L", "multi:" + cls, lambda cid, docs=docs, ops=ops: l_case(cid, docs, ops), docs=docs, ops=ops)
+    # XPath union laws.  Random paths are mostly empty, so a first pass through the library keeps the paths that
+    # select something (plus a few empty ones); this only steers the generator, every result is checked below.
+    sizes = {}
+    if impl and xjobs:
+        rc, res, raw = core.run_lines_parallel(impl, [x_case("j%d" % k, d, cn, ps) for k, (d, cn, ps) in enumerate(xjobs)], timeout=300)
+        for k, (d, cn, ps) in enumerate(xjobs):
+            outs = res.get("j%d" % k, "").split(";")
+            if len(outs) == len(ps):
+                sizes[k] = [0 if o in ("", "err", "notnodeset") else o.count(",") + 1 for o in outs]
+    for k, (doc, ctxnode, paths) in enumerate(xjobs):
+        sz = sizes.get(k, [1] * len(paths))
+        good = [p for p, n in zip(paths, sz) if n >= 1]
+        pool = good + [p for p, n in zip(paths, sz) if n == 0][:max(2, len(good) // 4)]
+        for _ in range(10):
+            A, B, C = r.choice(pool), r.choice(pool), r.choice(pool)
+            exprs = [A, B, C, "%s | %s" % (A, B), "%s | %s" % (B, A), "(%s | %s) | %s" % (A, B, C), "%s | (%s | %s)" % (A, B, C),
+                     "%s | %s" % (A, A), "%s | %s | %s" % (A, B, C)]
+            add("X", "xpath:" + doc.kind, lambda cid, doc=doc, ctxnode=ctxnode, exprs=exprs: x_case(cid, doc, ctxnode, exprs), docs=[doc], exprs=exprs)
     return cases
 
 
@@ -526,13 +541,13 @@ def run(ctx):
 
     known = {k["key"]: k for k in ctx.known.for_property("C12")}
     corpus = [{"id": "f7", "mode": "L", "cls": "corpus:F7", "line": F7_REPLAY, "ops": F7_REPLAY.split("|O:")[1].split(), "docs": []}]
-    cases = corpus + make_cases(ctx, 1 if not ctx.thorough else 8)
+    cases = corpus + make_cases(ctx, 2 if not ctx.thorough else 16, impl)
     ctx.cov["samples"] = [c["line"][:300] for c in cases[:3] + cases[len(cases) // 2: len(cases) // 2 + 3]]
     corr, orc = evaluate(ctx, cases, impl, model)
     new = [o for o in orc if not (o["known"] and o["known"] in known)]
     if (corr or not proved or not model) and not new and not ctx.thorough:
         ctx.escalated = True
-        c2, o2 = evaluate(ctx, make_cases(ctx, 6), impl, model)
+        c2, o2 = evaluate(ctx, make_cases(ctx, 8, impl), impl, model)
         corr += c2
         orc += o2
         new = [o for o in orc if not (o["known"] and o["known"] in known)]
